@@ -117,6 +117,10 @@ func roleOf(fd *ast.FuncDecl, ce *ast.CallExpr) (role string, sameRecvMethod str
 	return "", ""
 }
 
+// Classify is roleOf for other packages: the role of a call written in fd ("" if none) and, for a call of another method
+// on the same receiver, that method's name.
+func Classify(fd *ast.FuncDecl, ce *ast.CallExpr) (role, sameRecvMethod string) { return roleOf(fd, ce) }
+
 // SubstIdents returns e with the identifiers named in m replaced (expression forms of integer formulas only).
 func SubstIdents(e ast.Expr, m map[string]ast.Expr) ast.Expr {
 	if e == nil || len(m) == 0 {
